@@ -140,6 +140,39 @@ Theorem C13_flush_call_stays :
     flush_call x o -> x_state x <> Active -> run_op x o w = (res, x', w') -> flush_call x' (OpClose c).
 Proof. exact flush_call_stays. Qed.
 
+(* flush(), close() and read() in any combination, on a connection that is neither Active nor
+   Terminated (always the case while a Close frame is pending on a live transport): two calls
+   deliver, provided a read() used as FIRST call finds the frame parked in the slot or the
+   unflushed flag set - or else the transport ended during the first call.
+   push_call o : o is OpFlush, OpClose _ or OpRead.
+   read_pushes x : x_additional x <> None \/ x_unflushed x = true. *)
+Theorem C13_eventually_sent_any_call :
+  forall x w base g o1 o2 res1 x1 w1 res2 x2 w2,
+    reachable x w -> x_state x <> Active -> x_state x <> Terminated ->
+    pend base g x (w_log w) -> transport_accepts x w ->
+    push_call o1 -> push_call o2 -> (o1 = OpRead -> read_pushes x) ->
+    run_op x o1 w = (res1, x1, w1) -> run_op x1 o2 w1 = (res2, x2, w2) ->
+    on_wire base g x2 w2 \/ exists evs, w_log w1 = w_log w ++ evs /\ transport_ended evs.
+Proof. exact eventually_sent_calls. Qed.
+
+(* REFUTED for read() without that proviso.  Server, default configuration, transport blocked:
+   close(None) queues the Close frame into the write buffer and returns WouldBlock (slot empty,
+   unflushed_additional = false).  The transport then accepts everything, the user only calls
+   read(): three read() calls (each returns WouldBlock from the read side) write nothing - the
+   Close frame 88 00 stays in out_buffer, the wire stays empty, the transport has not ended.
+   (rr_state = run_ops rr_ctx [OpClose None] rr_world, see proofs/PendingP.v.) *)
+Theorem C13_eventually_sent_read_refuted :
+  let '(rs, x, w) := rr_state in
+  rs = [(ResUnit (RErr (EIo WouldBlock)), 2)] /\
+  reachable x w /\ x_state x = ClosedByUs /\
+  pend [] (frame_close None) x (w_log w) /\ c_out (x_codec x) = [136; 0] /\ x_additional x = None /\
+  transport_accepts x w /\ Forall (generous 1000) (w_wrs w) /\
+  let '(rs2, x2, w2) := run_ops x [OpRead; OpRead; OpRead] w in
+  wire (w_log w2) = [] /\ c_out (x_codec x2) = [136; 0] /\
+  ~ transport_ended (skipn (length (w_log w)) (w_log w2)) /\
+  ~ on_wire [] (frame_close None) x2 w2.
+Proof. exact eventually_sent_read_refuted. Qed.
+
 (* ---- C13_no_early_close --------------------------------------------------------------------
    In ANY state (reachable or not), a call that returns ConnectionClosed leaves the slot and the
    write buffer empty, unless the transport ended during that very call. *)
@@ -157,33 +190,67 @@ Definition ex_ctx (r : role) : ctx :=
 Definition ex_bin16 : message := MBinary (repeat 7 16).
 
 (* D1's history on the repaired code: max_write_buffer_size = 19, transport blocked, an 18-byte
-   frame is queued, then close(None): the Close frame does not fit, close returns an error, and
-   the frame is parked; the state is reachable, the Close is pending, the transport (unblocked)
-   accepts; two flushes put 88 00 on the wire. *)
-Definition ex_world : world := mkWorld [] [WrErr WouldBlock; WrErr WouldBlock; WrAccept 100; WrAccept 100] [] [] [].
-Definition ex_st1 := run_ops (ex_ctx Server) [OpWrite ex_bin16] ex_world.
-Definition ex_st2 := let '(_, x, w) := ex_st1 in run_op x (OpClose None) w.
+   frame is queued, then close(None): the Close frame does not fit; close returns an error and
+   the frame is parked.  Later the transport accepts; two flushes (or two reads) put 88 00 on
+   the wire behind the data frame. *)
+Definition ex_world : world :=
+  mkWorld [] [WrErr WouldBlock; WrErr WouldBlock; WrAccept 100; WrAccept 100] [] [] [].
+Definition ex_run0 := run_ops (ex_ctx Server) [OpWrite ex_bin16] ex_world.
+Definition ex_x0 : ctx := snd (fst ex_run0).
+Definition ex_w0 : world := snd ex_run0.
+Definition ex_run1 := run_op ex_x0 (OpClose None) ex_w0.
+Definition ex_x1 : ctx := snd (fst ex_run1).
+Definition ex_w1 : world := snd ex_run1.
 
-Example C13_ex_close_hyps :
-  let '(_, x, w) := ex_st1 in
-  reachable x w /\ x_state x = Active /\ close_op (OpClose None) None /\
-  let '(res, x1, w1) := ex_st2 in
-  res = ResUnit (RErr (EIo WouldBlock)) /\ x_additional x1 = Some (frame_close None) /\
-  c_out (x_codec x1) <> [] /\ transport_accepts x1 w1 /\ flush_call x1 OpFlush.
+Example C13_ex_reachable0 : reachable ex_x0 ex_w0 /\ x_state ex_x0 = Active.
 Proof.
-  vm_compute ex_st2. cbv iota beta. vm_compute ex_st1. cbv iota beta.
+  split; [|vm_compute; reflexivity].
+  exists Server, [], ex_cfg, (ex_ctx Server), ex_world, [OpWrite ex_bin16], (fst (fst ex_run0)).
+  split; [reflexivity|]. split; [reflexivity|].
+  unfold ex_x0, ex_w0. fold ex_run0. destruct ex_run0 as [[a b] c]. reflexivity.
+Qed.
+
+(* hypotheses of C13_close_pending, and what the call did *)
+Example C13_ex_close_call :
+  close_op (OpClose None) None /\
+  run_op ex_x0 (OpClose None) ex_w0 = (ResUnit (RErr (EIo WouldBlock)), ex_x1, ex_w1) /\
+  x_additional ex_x1 = Some (frame_close None) /\ c_out (x_codec ex_x1) <> [] /\
+  wire (w_log ex_w1) = [].
+Proof.
+  split; [now left|]. split; [vm_compute; reflexivity|]. split; [vm_compute; reflexivity|].
+  split; vm_compute; [discriminate|reflexivity].
+Qed.
+
+(* hypotheses of C13_eventually_sent (and of the any-call variant) at that state *)
+Example C13_ex_sent_hyps :
+  reachable ex_x1 ex_w1 /\ pend [] (frame_close None) ex_x1 (w_log ex_w1) /\
+  transport_accepts ex_x1 ex_w1 /\ flush_call ex_x1 OpFlush /\
+  x_state ex_x1 <> Active /\ x_state ex_x1 <> Terminated /\ read_pushes ex_x1 /\ push_call OpRead.
+Proof.
   split.
-  { exists Server, [], ex_cfg, (ex_ctx Server), ex_world, [OpWrite ex_bin16].
-    eexists. split; [reflexivity|]. split; [reflexivity|]. vm_compute. reflexivity. }
-  split; [reflexivity|]. split; [now left|]. split; [reflexivity|]. split; [reflexivity|].
-  split; [discriminate|]. split; [|now left].
-  unfold transport_accepts. cbn [x_additional]. split; [vm_compute; discriminate|].
-  split; [eexists; vm_compute; reflexivity|]. eexists; eexists. split; vm_compute; reflexivity.
+  { destruct C13_ex_reachable0 as [Hr _].
+    apply (reachable_op ex_x0 ex_w0 (OpClose None) (fst (fst ex_run1)) ex_x1 ex_w1 Hr).
+    unfold ex_x1, ex_w1. fold ex_run1. destruct ex_run1 as [[a b] c]. reflexivity. }
+  split.
+  { exists (queued (w_log ex_w1)). split; [reflexivity|]. left. exists (frame_close None).
+    split; vm_compute; reflexivity. }
+  split.
+  { vm_compute. split; [discriminate|].
+    split; [eexists; reflexivity|]. eexists; eexists. split; reflexivity. }
+  split; [now left|]. split; [vm_compute; discriminate|]. split; [vm_compute; discriminate|].
+  split; [left; vm_compute; discriminate|right; now right].
 Qed.
 
 Example C13_ex_close_sent :
-  let '(_, x1, w1) := ex_st2 in
-  let '(_, x2, w2) := run_ops x1 [OpFlush; OpFlush] w1 in
+  let '(_, x2, w2) := run_ops ex_x1 [OpFlush; OpFlush] ex_w1 in
+  x_additional x2 = None /\ c_out (x_codec x2) = [] /\
+  wire (w_log w2) = frame_format (frame_message (repeat 7 16) (OData Binary) true) ++ [136; 0].
+Proof. vm_compute. auto. Qed.
+
+(* the same parked Close is also delivered by two read() calls (the read side just blocks) *)
+Example C13_ex_close_sent_by_read :
+  let '(rs, x2, w2) := run_ops ex_x1 [OpRead; OpRead] ex_w1 in
+  map fst rs = [ResMsg (RErr (EIo WouldBlock)); ResMsg (RErr (EIo WouldBlock))] /\
   x_additional x2 = None /\ c_out (x_codec x2) = [] /\
   wire (w_log w2) = frame_format (frame_message (repeat 7 16) (OData Binary) true) ++ [136; 0].
 Proof. vm_compute. auto. Qed.
@@ -227,6 +294,8 @@ Print Assumptions C13_reply_pending_pong.
 Print Assumptions C13_pending_step.
 Print Assumptions C13_eventually_sent.
 Print Assumptions C13_eventually_sent_one_call.
+Print Assumptions C13_eventually_sent_any_call.
+Print Assumptions C13_eventually_sent_read_refuted.
 Print Assumptions C13_accepts_whole_writes.
 Print Assumptions C13_accepts_partial_writes.
 Print Assumptions C13_close_is_flush_call.
